@@ -130,9 +130,11 @@ pub async fn drive(sim: &Sim, case: &PairCase) -> PairRun {
         Arc::new(Mutex::new(Vec::new()));
     // transactions waiting for the outstation task to reach a lock point: (site, occurrences to skip, updates)
     let lockq: Arc<Mutex<Vec<(String, u32, Vec<UpdateOp>)>>> = Arc::new(Mutex::new(Vec::new()));
+    let tracker = Arc::new(Mutex::new(crate::verif::nodes::outstation::StaticTracker::new(&case.ocfg)));
     {
         let lockq = lockq.clone();
         let updates = updates.clone();
+        let tracker = tracker.clone();
         let db = out.handle.get_database_handle();
         sim.set_lock_hook(Box::new(move |site| {
             if site == "transaction" {
@@ -147,11 +149,13 @@ pub async fn drive(sim: &Sim, case: &PairCase) -> PairRun {
                         let core = kernel::current();
                         let t = core.as_ref().map(|c| c.now_ms()).unwrap_or(0);
                         let mut results = Vec::new();
+                        let mut tr = tracker.lock().unwrap();
                         db.transaction(|d| {
                             for u in &ops {
-                                results.push(u.apply(d));
+                                results.push(tr.apply(u, d));
                             }
                         });
+                        drop(tr);
                         if let Some(core) = &core {
                             core.count("fault.update_at_lock_point", 1);
                             if core.log_enabled() {
@@ -163,9 +167,9 @@ pub async fn drive(sim: &Sim, case: &PairCase) -> PairRun {
                             }
                         }
                         let mut ups = updates.lock().unwrap();
-                        for (u, r) in ops.iter().zip(results.into_iter()) {
+                        for (u, r) in results.into_iter() {
                             let order = core.as_ref().map(|c| c.next_order()).unwrap_or(0);
-                            ups.push((t, order, u.clone(), r));
+                            ups.push((t, order, u, r));
                         }
                         continue;
                     } else {
@@ -238,15 +242,17 @@ pub async fn drive(sim: &Sim, case: &PairCase) -> PairRun {
             POp::Update(ops) => {
                 let (t, _) = order_now();
                 let mut results = Vec::new();
+                let mut tr = tracker.lock().unwrap();
                 out.handle.transaction(|db| {
                     for u in ops {
-                        results.push(u.apply(db));
+                        results.push(tr.apply(u, db));
                     }
                 });
+                drop(tr);
                 let mut ups = updates.lock().unwrap();
-                for (u, r) in ops.iter().zip(results.into_iter()) {
+                for (u, r) in results.into_iter() {
                     let order = sim.core().next_order();
-                    ups.push((t, order, u.clone(), r));
+                    ups.push((t, order, u, r));
                 }
             }
             POp::Cut { eof } => {
